@@ -149,22 +149,30 @@ type solverSpec struct {
 	argv func(file string, timeoutS int) []string
 }
 
+// Budgets are RESOURCE limits (z3 rlimit: a deterministic count of solver
+// steps), not wall-clock time, so a verdict does not depend on machine load;
+// the wall-clock limit passed to -T is only a generous safety net.
+const (
+	rlimitEmatch  = 40000000
+	rlimitDefault = 60000000
+)
+
 var solvers = []solverSpec{
 	{"z3-new-5.1.0-ematch", func(f string, t int) []string {
 		// E-matching only: the usual configuration of deductive verifiers; proves fast or gives up
-		return []string{"z3-new", fmt.Sprintf("-T:%d", t), "smt.mbqi=false", "-smt2", f}
+		return []string{"z3-new", fmt.Sprintf("-T:%d", t), fmt.Sprintf("rlimit=%d", rlimitEmatch), "smt.mbqi=false", "-smt2", f}
 	}},
 	{"z3-new-5.1.0-ematch-arith2", func(f string, t int) []string {
-		return []string{"z3-new", fmt.Sprintf("-T:%d", t), "smt.mbqi=false", "smt.arith.solver=2", "-smt2", f}
+		return []string{"z3-new", fmt.Sprintf("-T:%d", t), fmt.Sprintf("rlimit=%d", rlimitEmatch), "smt.mbqi=false", "smt.arith.solver=2", "-smt2", f}
 	}},
 	{"z3-new-5.1.0", func(f string, t int) []string {
-		return []string{"z3-new", fmt.Sprintf("-T:%d", t), "-smt2", f}
+		return []string{"z3-new", fmt.Sprintf("-T:%d", t), fmt.Sprintf("rlimit=%d", rlimitDefault), "-smt2", f}
 	}},
 	{"z3-new-5.1.0-ematch-arith2-seed3", func(f string, t int) []string {
-		return []string{"z3-new", fmt.Sprintf("-T:%d", t), "smt.mbqi=false", "smt.arith.solver=2", "smt.random_seed=3", "-smt2", f}
+		return []string{"z3-new", fmt.Sprintf("-T:%d", t), fmt.Sprintf("rlimit=%d", rlimitEmatch), "smt.mbqi=false", "smt.arith.solver=2", "smt.random_seed=3", "-smt2", f}
 	}},
 	{"z3-4.8.12", func(f string, t int) []string {
-		return []string{"z3", fmt.Sprintf("-T:%d", t), "-smt2", f}
+		return []string{"z3", fmt.Sprintf("-T:%d", t), fmt.Sprintf("rlimit=%d", rlimitDefault), "-smt2", f}
 	}},
 	{"cvc5-1.0.3", func(f string, t int) []string {
 		return []string{"cvc5", "--lang=smt2", fmt.Sprintf("--tlimit=%d", t*1000), "--produce-models", f}
@@ -241,10 +249,10 @@ func solveRace(script string, name string, timeoutS int, all bool, seed int) (ve
 			f = file + ".cvc5"
 			os.WriteFile(f, []byte(cvc5Dialect(script)), 0o644)
 		}
-		tmo := timeoutS
 		ematch := strings.Contains(sp.name, "ematch")
-		if ematch {
-			tmo = min(timeoutS, 6)
+		tmo := timeoutS * 12 // wall-clock safety net only; the real budget is rlimit
+		if strings.HasPrefix(sp.name, "cvc5") {
+			tmo = timeoutS * 2
 		}
 		r := runOne(sp, f, tmo, ctx)
 		if ematch && r.Verdict == "sat" {
